@@ -78,7 +78,7 @@ Definition create_object (d : decl) (caus released : vv) : object + panic :=
   | DNotify => inl (ONotify (mkNotify true false false false None vv_new))
   | DChan => inl (OChannel (mkChan 0 None None vv_new [] None))
   | DCell => inl (OCell (cell_new caus))
-  | DArc => inl (OArc (mkArc 1 vv_new None None None None))
+  | DArc => inl (OArc (mkArc 1 vv_new (repeat None MAX_THREADS) None (repeat None MAX_THREADS)))
   | DTrack => inl (OAlloc false)
   end.
 
